@@ -74,9 +74,9 @@ def rand_task(rng, names):
 def gen_module(rng, n, names, ctx_choice, penv, pc, pu, focus):
     m = {"name": n}
     if ctx_choice is not None: m["context"] = ctx_choice
-    for key, p in (("selects", 0.5), ("depends", 0.5)):
+    for key, p in (("selects", 0.5), ("depends", 0.8 if focus == "imports" else 0.5)):
         if pick(rng, p):
-            dl = dep_list(rng, names)
+            dl = dep_list(rng, names, p_if=(0.5 if focus == "imports" and key == "depends" else 0.2))
             if dl: m[key] = dl
     if pick(rng, 0.7 if focus == "build" else 0.3):
         m["uses"] = [("?" if pick(rng, 0.2) else "") + rng.choice(names) for _ in range(rng.randint(2, 4) if focus == "build" else rng.randint(1, 2))]
@@ -128,7 +128,7 @@ def gen_project(rng, size="small", features=None, focus=None):
     global VARS, MULTIKEY
     MULTIKEY = focus == "maps"
     VARS = ["CFLAGS", "X", "LIBS"] + (["Y", "notify", "OPT"] if focus != "env" else [])
-    penv = 0.6 if focus == "env" else 0.3
+    penv = 0.6 if focus in ("env", "imports") else 0.3
     pc = 0.3 if focus == "conflicts" else 0.08
     pu = 0.3 if focus == "conflicts" else 0.1
     layout = focus == "layout" or pick(rng, 0.25)
